@@ -229,7 +229,7 @@ func c19ComparatorSorts(e *c19Env, lists [][]c19Rec) {
 // ---- descriptors
 
 type c19Key struct {
-	key   int  // 1, 2, 3
+	key   int // 1, 2, 3
 	asc   bool
 	field bool // field-name based (else transformer based)
 }
@@ -305,6 +305,46 @@ func c19RefCompare(a, b c19DRec, st []c19Key) int {
 	return 0
 }
 
+// a second record type with the same field NAMES at other positions (and other fields in between): field-name based
+// descriptors must resolve the field per record type
+type c19DRec2 struct {
+	Pad0 string
+	K3   fpgo.ComparableOrdered[float64]
+	ID   int
+	K2   fpgo.ComparableString
+	Pad1 []int
+	K1   fpgo.ComparableOrdered[int]
+}
+
+func c19FieldSortsOtherType(e *c19Env, in []c19DRec, st []c19Key) {
+	allField := true
+	for _, k := range st {
+		if !k.field {
+			allField = false
+		}
+	}
+	if !allField {
+		return
+	}
+	in2 := make([]c19DRec2, len(in))
+	for i, r := range in {
+		in2[i] = c19DRec2{Pad0: "p", K3: r.K3, ID: r.ID, K2: r.K2, K1: r.K1}
+	}
+	e.run("SortDescriptorsBuilder.ToSortedList(second record type)", c19StackString(st), in, len(in) >= 2, func() string {
+		b := fpgo.NewSortDescriptorsBuilder[c19DRec2]()
+		for _, k := range st {
+			b = b.ThenWithFieldName(fmt.Sprintf("K%d", k.key), k.asc)
+		}
+		out2 := b.ToSortedList(in2...)
+		out := make([]c19DRec, len(out2))
+		for i, r := range out2 {
+			out[i] = c19DRec{K1: r.K1, K2: r.K2, K3: r.K3, ID: r.ID}
+		}
+		less := func(a, b c19DRec) bool { return c19RefCompare(a, b, st) < 0 }
+		return c19CheckSorted(in, out, func(r c19DRec) int { return r.ID }, less, false)
+	})
+}
+
 func c19Builder(st []c19Key, variant int) fpgo.SortDescriptorsBuilder[c19DRec] {
 	b := fpgo.NewSortDescriptorsBuilder[c19DRec]()
 	for _, k := range st {
@@ -369,6 +409,9 @@ func c19DescriptorSorts(e *c19Env, lists [][]c19DRec, stacks [][]c19Key) {
 				less := func(a, b c19DRec) bool { return c19RefCompare(a, b, st) < 0 }
 				return c19CheckSorted(in, out, func(r c19DRec) int { return r.ID }, less, false)
 			})
+			if (li+si)%3 == 0 {
+				c19FieldSortsOtherType(e, in, st)
+			}
 		}
 	})
 }
@@ -442,9 +485,9 @@ func init() {
 			return core.Meta{
 				Level: "exploration",
 				Rule: "records carry a unique id = input position. Comparator sorts (Sort, SortSlice, Stream.Sort, Stream.SortByIndex and the interface{} twins; SortOrdered/Ascending/Descending on int/string/float64): every list of length 0..L over keys {0,1,2} (L=6 quick, 8 thorough) plus PRNG lists up to 200, five comparators incl. composite and all-equal; oracle = permutation + no pair out of order (all pairs) + stability (all pairs) + input unmodified for the non-in-place forms. " +
-					"Descriptor sorts (SortedListBySortDescriptors, builder.ToSortedList, SortBySortDescriptors, builder.Sort): all 492 stacks of 1..3 distinct keys x direction mixes x {transformer, field-name} with ComparableOrdered[int], ComparableString, ComparableOrdered[float64] keys over all lists up to length 2 (3) of 12 record values plus PRNG lists; oracle = permutation ordered under the reference lexicographic comparison. distinct_nontrivial = enumerated (api, comparator/stack, list) cases with >= 2 elements",
+					"Descriptor sorts (SortedListBySortDescriptors, builder.ToSortedList, SortBySortDescriptors, builder.Sort): all 492 stacks of 1..3 distinct keys x direction mixes x {transformer, field-name} with ComparableOrdered[int], ComparableString, ComparableOrdered[float64] keys over all lists up to length 2 (3) of 12 record values plus PRNG lists, field-name stacks also on a second record type that has the same field names at other positions; oracle = permutation ordered under the reference lexicographic comparison. distinct_nontrivial = enumerated (api, comparator/stack, list) cases with >= 2 elements",
 				Assumptions: []string{"only strict comparators are generated (sort.SliceStable's contract)", "no stability claim for descriptor sorts", "descriptor keys are never nil"},
-				Exhaustive: true,
+				Exhaustive:  true,
 			}
 		},
 		Run: runC19,
